@@ -12,7 +12,8 @@
    endpoint's own parameters untouched; and that message IDs are the hex of
    exactly 20 fresh bytes of the configured source, for every sequence of
    creations.  The models are compared with the real functions on every run. *)
-From Saml Require Import Base UrlEnc UrlEncProofs Outbound OutboundProofs.
+From Saml Require Import Base UrlEnc UrlEncProofs Outbound OutboundProofs OutboundIdP OutboundIdPProofs.
+From Saml Require IdPModel.
 
 (* url.QueryUnescape inverts url.QueryEscape on ALL byte strings *)
 Theorem C12_query_escape_roundtrip : forall s, query_unescape (query_escape s) = Some s.
@@ -126,3 +127,40 @@ Theorem C12_message_recoverable :
   map (fun v => inflate (b64dec v)) (values_of "SAMLRequest" (fst (parse_query (query_of url)))) = [xml].
 Proof. exact redirect_message_recoverable. Qed.
 Print Assumptions C12_message_recoverable.
+
+(* Cross-model theorem: this library's IdP (IdPModel.validate, the model of
+   IdpAuthnRequest.Validate) accepts every AuthnRequest the SP model produces
+   (OutboundIdP.make_authn_request, the record behind Outbound.authn_fields) --
+   for every SP configuration, random stream, SP clock, destination and result
+   binding -- provided the Destination is the IdP's SSO URL (or empty), the
+   SP's metadata of the same configuration is registered under the request's
+   issuer, and the IdP's clock is within MaxIssueDelay of the IssueInstant on the
+   wire (the SP's clock cut to the millisecond); the response is routed to the
+   SP's ACS URL with the HTTP-POST binding. *)
+Theorem C12_idp_accepts_sp_request :
+  forall (c : spcfg) (stream : string) (sp_now : Z) (dest rb : string) (r : authn_request) (rest : string)
+         (cfg : IdPModel.idpcfg) (reg : IdPModel.registry) (idp_now : Z)
+         (key : option Z) (rsa signs : bool) (ik : Z) (allow : bool) (cert : string),
+  make_authn_request c stream sp_now dest rb = Ok (r, rest) ->
+  (dest <> EmptyString -> dest = IdPModel.sso_url cfg) ->
+  reg (issuer_of c) = IdPModel.Found (IdPModel.sp_metadata (idp_view c key rsa signs ik allow) cert) ->
+  idp_now <= wire_instant sp_now + IdPModel.max_issue_delay cfg ->
+  exists rt, IdPModel.validate cfg reg idp_now (to_authnreq r) = Ok rt /\
+             IdPModel.ep_location (IdPModel.rt_ep rt) = sp_acs_url c /\
+             IdPModel.ep_binding (IdPModel.rt_ep rt) = IdPModel.post_binding /\
+             IdPModel.rt_md rt = IdPModel.sp_metadata (idp_view c key rsa signs ik allow) cert.
+Proof. exact idp_accepts_sp_request. Qed.
+Print Assumptions C12_idp_accepts_sp_request.
+
+(* the request of that theorem is the one whose fields are compared with the wire form *)
+Theorem C12_request_fields :
+  forall c stream now dest rb r rest,
+  make_authn_request c stream now dest rb = Ok (r, rest) ->
+  fields_of_request r = authn_fields c (aq_id r) dest rb
+  /\ new_id stream = Ok (aq_id r, rest) /\ aq_issue_instant r = now /\ aq_destination r = dest.
+Proof. exact make_authn_request_fields. Qed.
+Print Assumptions C12_request_fields.
+
+Theorem C12_wire_instant_bounds : forall t, t - 999999 <= wire_instant t <= t.
+Proof. exact wire_instant_bounds. Qed.
+Print Assumptions C12_wire_instant_bounds.
